@@ -111,7 +111,15 @@ def run_case(case):
     except Exception as e:
         return r.bad(f'C11/compile-raised/{type(e).__name__}', f'{e!r} :: {text}')
     try:
-        loaded = Checker.load(checker.save(), lib_fns)
+        saved = checker.save()
+        if case.get('style', 0) % 3 == 1:
+            # the bytes come out of a buffer the caller goes on using (a file / receive buffer that is re-filled after loading)
+            buf = bytearray(saved)
+            loaded = Checker.load(buf if case.get('style', 0) < 3 else memoryview(buf), lib_fns)
+            for i_ in range(len(buf)):
+                buf[i_] = 0x5a
+        else:
+            loaded = Checker.load(saved, lib_fns)
     except Exception as e:
         return r.bad(f'C11/save-load-raised/{type(e).__name__}', f'{e!r} :: {text}')
     ex = L.expand(sch)
